@@ -309,6 +309,7 @@ func Apply(ctx context.Context, rc *regclient.RegClient, rSrc ref.Ref, opts ...O
 					return nil, err
 				}
 				err = rdr.Close()
+				rdr = nil
 				if err != nil {
 					return nil, err
 				}
